@@ -171,6 +171,55 @@ func c10History(c c10Case) (string, string) {
 	return sig, d
 }
 
+// c10Shared: two sessions of one acceptor on one store (the bundled store keeps one counter and one message log
+// for all of them).  Session A is in the middle of answering a ResendRequest - its peer reads slowly, the
+// outgoing queue is full - when session B answers one of its own; then A's peer reads on.  Each gets exactly the
+// messages of its own range, byte-identical.
+func c10Shared(c c10Case) (string, string) {
+	st := memory.NewStorage()
+	wA := newWorld(wcfg{Role: "acc", Buf: 1, HbMin: 1, HbMax: 60, Store: st})
+	wA.logonOK(30) // number 1
+	for i := 0; i < 3; i++ {
+		_ = wA.s.Send(fixgen.NewMarketDataRequest().SetMDReqID("A" + strconv.Itoa(i))) // 2,3,4
+		vsched.Settle()
+	}
+	wB := newWorld(wcfg{Role: "acc", Buf: 10, HbMin: 1, HbMax: 60, Store: st})
+	wB.logonOK(30) // number 5
+	for i := 0; i < 3; i++ {
+		_ = wB.s.Send(fixgen.NewMarketDataRequest().SetMDReqID("B" + strconv.Itoa(i))) // 6,7,8
+		vsched.Settle()
+	}
+	firstA, firstB := append([]outMsg{}, wA.outs...), append([]outMsg{}, wB.outs...)
+	if len(firstA) != 4 || len(firstB) != 4 || seqOf(firstA[3].Msg) != 4 || seqOf(firstB[0].Msg) != 5 {
+		return "setup:shared-numbering", fmt.Sprintf("A=[%s] B=[%s]", outsStr(firstA), outsStr(firstB))
+	}
+	wA.take()
+	wB.take()
+	wA.hold = true
+	wA.in(wA.msg("2", "7=1", "16=4")) // A's dispatch task gets as far as the queue lets it
+	wB.in(wB.msg("2", "7=5", "16=8"))
+	wA.hold = false
+	wA.release <- struct{}{}
+	vsched.Settle()
+	time.Sleep(time.Second)
+	vsched.Settle()
+	for _, x := range []struct {
+		name  string
+		first []outMsg
+		got   []outMsg
+	}{{"A", firstA, wA.take()}, {"B", firstB, wB.take()}} {
+		if len(x.got) != 4 {
+			return "shared-store:resend-incomplete", fmt.Sprintf("session %s was sent %d of 4 messages: %s", x.name, len(x.got), outsStr(x.got))
+		}
+		for i, o := range x.got {
+			if !bytes.Equal(o.Msg, x.first[i].Msg) {
+				return "shared-store:resend-not-the-requested-message", fmt.Sprintf("session %s, position %d: got %s, first transmission was %s", x.name, i, show(o.Msg), show(x.first[i].Msg))
+			}
+		}
+	}
+	return "", ""
+}
+
 func execBody(body func() (string, string)) (sig, detail string, steps int) {
 	res := vsched.Run(vsched.Options{StrictTime: true, MaxSteps: 300000}, func() { sig, detail = body() })
 	steps = res.Steps
@@ -203,6 +252,9 @@ var c10Resent int // retransmissions observed in the last run (outcome evidence)
 
 func c10Run(c c10Case) (string, string) {
 	c10Resent = 0
+	if c.Pattern == "shared-store" {
+		return c10Shared(c)
+	}
 	if c.In != "" {
 		return c10History(c)
 	}
@@ -406,6 +458,9 @@ func runC10(R *vlib.Out) {
 			R.Outcome(fmt.Sprintf("requests=%d retransmitted=%d", len(c.Reqs), c10Resent))
 		}
 		return true
+	}
+	if !try(c10Case{Role: "acc", Pattern: "shared-store"}) {
+		return
 	}
 	for _, role := range []string{"acc", "ini"} {
 		// gap detection: every (stored, logon seq)
